@@ -81,6 +81,7 @@ class WaitingSender(explore.Scenario):
     horizon = 60.0
     max_points = 20000
     idle_window = 8.0
+    auto_shared = True
     shared = frozenset({"pending_answers", "msg", "request_id", "answer_id", "associations", "recv_queues",
                         "testing_answer"})
 
